@@ -4,6 +4,73 @@
 
 namespace vf {
 
+// Shrink candidates of a choice sequence, produced lazily: shorter prefixes first, then zeroed
+// blocks (halving block sizes down to single elements), then halved / decremented elements.
+// A zero tail is the same as a shorter sequence because Src yields 0 when exhausted.
+class ShrinkSeq {
+public:
+    explicit ShrinkSeq(std::vector<uint32_t> b) : base_(std::move(b)) {
+        while (!base_.empty() && base_.back() == 0) base_.pop_back();
+        block_ = base_.size();
+    }
+    rc::Maybe<std::vector<uint32_t>> operator()() {
+        const size_t n = base_.size();
+        if (n == 0) return rc::Nothing;
+        while (phase_ == 0) {                       // prefixes: n/2, 3n/4, n-1
+            static const int num[] = {1, 3}, den[] = {2, 4};
+            if (idx_ < 2) { size_t k = n * num[idx_] / den[idx_]; idx_++; if (k < n) return prefix(k); continue; }
+            if (idx_ == 2) { idx_++; if (n >= 1) return prefix(n - 1); }
+            phase_ = 1; idx_ = 0; block_ = (n + 1) / 2;
+        }
+        while (phase_ == 1) {                       // zero one aligned block
+            if (block_ == 0) { phase_ = 2; idx_ = 0; break; }
+            while (idx_ * block_ < n) {
+                size_t lo = idx_ * block_, hi = std::min(n, lo + block_);
+                idx_++;
+                bool any = false;
+                for (size_t i = lo; i < hi; i++) any |= base_[i] != 0;
+                if (!any) continue;
+                std::vector<uint32_t> v = base_;
+                for (size_t i = lo; i < hi; i++) v[i] = 0;
+                return v;
+            }
+            block_ = block_ == 1 ? 0 : (block_ + 1) / 2;
+            idx_ = 0;
+        }
+        while (phase_ == 2) {                       // smaller element values
+            if (idx_ >= 2 * n) { phase_ = 3; break; }
+            size_t i = idx_ / 2; bool half = (idx_ % 2) == 0;
+            idx_++;
+            if (base_[i] <= 1) continue;
+            std::vector<uint32_t> v = base_;
+            v[i] = half ? base_[i] / 2 : base_[i] - 1;
+            return v;
+        }
+        return rc::Nothing;
+    }
+private:
+    std::vector<uint32_t> prefix(size_t k) { return std::vector<uint32_t>(base_.begin(), base_.begin() + (long) k); }
+    std::vector<uint32_t> base_;
+    int phase_ = 0;
+    size_t idx_ = 0, block_ = 0;
+};
+
+// The number of choices grows with rapidcheck's size (a quarter of maxChoices at size 0, all of
+// them from size 75 on); every element is a uniform 32-bit value taken from rapidcheck's Random.
+static rc::Gen<std::vector<uint32_t>> choiceGen(int maxChoices) {
+    return rc::Gen<std::vector<uint32_t>>([=](const rc::Random &random, int size) {
+        int count = std::max(1, std::min(maxChoices, maxChoices * (size + 25) / 100));
+        rc::Random r = random;
+        std::vector<uint32_t> v((size_t) count);
+        for (int i = 0; i < count; i += 2) {
+            uint64_t x = r.next();
+            v[(size_t) i] = (uint32_t) x;
+            if (i + 1 < count) v[(size_t) i + 1] = (uint32_t) (x >> 32);
+        }
+        return rc::shrinkable::shrinkRecur(std::move(v), [](const std::vector<uint32_t> &cur) { return rc::makeSeq<ShrinkSeq>(cur); });
+    });
+}
+
 void runRandom(const Opt &o, Ev &ev, const std::string &sub, int maxChoices, int nCases,
                const std::function<std::string(Src &, Ev &)> &body) {
     using namespace rc;
@@ -15,14 +82,7 @@ void runRandom(const Opt &o, Ev &ev, const std::string &sub, int maxChoices, int
     std::vector<uint32_t> lastFail;
     std::string lastMsg;
     bool any = false;
-    // The number of choices grows with rapidcheck's size (a quarter of maxChoices at size 0,
-    // all of them from size 75 on); every element is a uniform 32-bit value at every size
-    // (resize) so that ranges never collapse.  Fixed-count containers shrink element-wise
-    // towards 0, and a zero tail is the same as a shorter sequence (Src yields 0 when exhausted).
-    auto gen = gen::withSize([=](int size) {
-        int count = std::max(1, std::min(maxChoices, maxChoices * (size + 25) / 100));
-        return gen::container<std::vector<uint32_t>>((std::size_t) count, gen::resize(100, gen::arbitrary<uint32_t>()));
-    });
+    auto gen = choiceGen(maxChoices);
     auto prop = [&]() {
         std::vector<uint32_t> v = *gen;
         armCase(choicesText(sub, v));
@@ -76,7 +136,7 @@ int mainWith(int argc, char **argv, const char *prop, std::vector<Sub> subs) {
         else { fprintf(stderr, "unknown argument %s\n", a.c_str()); return 2; }
     }
     if (o.seed == 0) o.seed = 1;
-    __sanitizer_set_death_callback(deathCb);
+    if (__sanitizer_set_death_callback) __sanitizer_set_death_callback(deathCb);
 
     if (!o.replayFile.empty()) {
         Replay r;
